@@ -583,3 +583,58 @@ save [$ast *] from $m
 set_account_meta($acc, $str, $num - $num)
 set_tx_meta($str, $bal)
 `
+
+// repeatDest: the same destination account (or `kept`) in two non-adjacent clauses of an ordered or
+// allotted destination, fed by at least two sources: each clause is its own entry of the
+// distribution list, paired with the sources in order.
+func (g *Gen) repeatDestProgram() *GProgram {
+	asset := "USD"
+	g.asset = asset
+	names := []string{"a", "b", "c"}[:2+g.r.Intn(2)]
+	sum := g.smallBalances(names, asset, 15)
+	src := &GSource{Kind: SrcInorder}
+	for _, a := range names {
+		src.Subs = append(src.Subs, srcAcct(a))
+	}
+	if g.r.Chance(1, 3) {
+		src.Subs = append(src.Subs, srcAcct("world"))
+	}
+	n := new(big.Int).Set(sum)
+	if sum.Sign() > 0 && g.r.Chance(1, 3) {
+		n = g.r.BigBelow(new(big.Int).Add(sum, bi(1)))
+	}
+	x := &GKod{To: dstAcct("x")}
+	if g.r.Chance(1, 4) {
+		x = &GKod{Kept: true}
+	}
+	if g.r.Chance(1, 5) {
+		// the same account through a variable and literally
+		g.prog.Vars = append(g.prog.Vars, &GVarDecl{Type: "account", Name: "dx"})
+		g.rawVars["dx"] = "x"
+		x = &GKod{To: &GDest{Kind: DstAccount, E: &GExpr{Kind: XVar, S: "dx"}}}
+	}
+	again := func() *GKod {
+		if x.Kept {
+			return &GKod{Kept: true}
+		}
+		return &GKod{To: dstAcct("x")}
+	}
+	var dst *GDest
+	if g.r.Chance(2, 3) {
+		dst = &GDest{Kind: DstInorder, Clauses: []*GClause{
+			{Cap: lit(asset, bi(int64(g.r.Intn(8)))), To: x},
+			{Cap: lit(asset, bi(int64(g.r.Intn(8)))), To: &GKod{To: dstAcct("y")}},
+			{Cap: lit(asset, bi(int64(g.r.Intn(8)))), To: again()}},
+			Remaining: &GKod{To: dstAcct("z")}}
+		if g.r.Chance(1, 3) {
+			dst.Remaining = again()
+		}
+	} else {
+		dst = &GDest{Kind: DstAllot, Items: []*GDestItem{
+			{Allot: &GAllot{Kind: AlRatio, E: g.ratio(bi(1), bi(4))}, To: x},
+			{Allot: &GAllot{Kind: AlRatio, E: g.ratio(bi(1), bi(2))}, To: &GKod{To: dstAcct("y")}},
+			{Allot: &GAllot{Kind: AlRemaining}, To: again()}}}
+	}
+	g.prog.Stmts = append(g.prog.Stmts, &GStmt{Kind: StSend, Sent: &GSent{E: lit(asset, n)}, Src: src, Dst: dst})
+	return g.prog
+}
